@@ -10,6 +10,7 @@
 //!   thread scheduler there.
 //! * [`rng_u64`] lets a simulator replace the jitter randomness by a seeded
 //!   generator.
+//! * [`sync::Mutex`] calls [`yield_point`] before every acquisition.
 
 use std::cell::Cell;
 
@@ -201,4 +202,34 @@ pub mod atomic {
 
     wrap_atomic!(AtomicU64, std::sync::atomic::AtomicU64, u64);
     wrap_atomic!(AtomicUsize, std::sync::atomic::AtomicUsize, usize);
+    wrap_atomic!(AtomicU8, std::sync::atomic::AtomicU8, u8);
+}
+
+/// Locks that call [`yield_point`](super::yield_point) before every acquisition, so that a
+/// simulator's thread scheduler can run another thread between two critical sections.
+pub mod sync {
+    pub use std::sync::{LockResult, MutexGuard, TryLockResult};
+
+    /// Wrapper around `std::sync::Mutex`.
+    #[derive(Debug, Default)]
+    pub struct Mutex<T>(std::sync::Mutex<T>);
+
+    impl<T> Mutex<T> {
+        /// See `std`.
+        pub fn new(v: T) -> Self {
+            Self(std::sync::Mutex::new(v))
+        }
+        /// See `std`.
+        #[inline]
+        pub fn lock(&self) -> LockResult<MutexGuard<'_, T>> {
+            super::yield_point();
+            self.0.lock()
+        }
+        /// See `std`.
+        #[inline]
+        pub fn try_lock(&self) -> TryLockResult<MutexGuard<'_, T>> {
+            super::yield_point();
+            self.0.try_lock()
+        }
+    }
 }
